@@ -173,6 +173,15 @@ Theorem C03_link_sites_covered :
 Proof. exact sites_have_complete_guards. Qed.
 Print Assumptions C03_link_sites_covered.
 
+(* final pass: a textPath reference is read (geometry of the path), not followed - shapes.rs and switch.rs contain no
+   link-following construct - and switch::convert converts its selected child with the caller's state, like a group
+   (the generator renders a switch as the model's non-g container; its documents go through every correspondence) *)
+Theorem C03_textpath_switch_follow_nothing :
+  G_TEXTPATH_NO_FOLLOW = true /\ G_SWITCH_AS_GROUP = true /\ no_follow_files = true /\
+  (forall m, guard_push m = true).
+Proof. exact textpath_switch_follow_nothing. Qed.
+Print Assumptions C03_textpath_switch_follow_nothing.
+
 Local Open Scope N_scope.
 Definition wit : xnode := XN 90 TShape (Some 99) false [(AFill, None)] [].
 Definition svg (ks : list xnode) : xnode := XN 0 TSvg None false [] ks.
